@@ -505,63 +505,10 @@ func c17SharedWrites(c *Ctx) {
 			c.CheckerFail("effects", "anchor "+a[0]+"."+a[1]+" does not resolve")
 		}
 	}
-	keep := func(f *ssa.Function) bool {
-		pk := fnPkg(f)
-		return pk != nil && strings.HasPrefix(pk.Path(), modPath) && evalPkgs[shortPkg(pk.Path())] && !cut[f]
-	}
-	var rootList []*ssa.Function
-	for f := range roots {
-		rootList = append(rootList, f)
-	}
-	scope := c.P.ReachableFrom(rootList, keep)
-	eng := newEffEngine(c.P, scope, roots)
-	var fns []*ssa.Function
-	for f := range scope {
-		fns = append(fns, f)
-	}
-	sort.Slice(fns, func(i, j int) bool {
-		if fns[i].Pos() != fns[j].Pos() {
-			return fns[i].Pos() < fns[j].Pos()
-		}
-		return FuncName(fns[i]) < FuncName(fns[j])
-	})
-	guardField := map[*types.Var]bool{}
-	for _, g := range discoverGuards(&Ctx{P: c.P, keys: map[string]int{}, Funcs: map[string]bool{}}) {
-		guardField[g.field] = true
-	}
-	nWrites, nShared := 0, 0
-	for _, fn := range fns {
-		name := FuncName(fn)
-		c.Fn(name)
-		for _, w := range eng.Writes(fn) {
-			nWrites++
-			c.Sites++
-			key := fmt.Sprintf("%s:%s[%s]", name, w.kind, w.target)
-			if w.fresh {
-				c.OK("effects", key, w.pos, "")
-				continue
-			}
-			if why, transient := effTransient(w); transient {
-				c.OK("effects", key, w.pos, "not shared configuration state: "+why)
-				continue
-			}
-			if w.field != nil && guardField[w.field] {
-				c.OK("effects", key, w.pos, "lock-guarded field (decided by R1)")
-				continue
-			}
-			if why, ok := effExceptions[key]; ok {
-				c.OK("effects", key, w.pos, "named exception: "+why)
-				c.Assumption("effects exception " + key + ": " + why)
-				continue
-			}
-			nShared++
-			c.Fail("effects", key, w.pos, fmt.Sprintf("%s to %s which is not provably fresh (%s): reachable from concurrent evaluation entry points, so two goroutines may write the same memory", w.kind, w.target, w.why))
-		}
-	}
-	c.Floor("effects functions", len(fns), 400, "functions reachable from evaluation entry points")
+	nFns, nWrites := runEffects(c, "effects", roots, evalPkgs, cut, "reachable from concurrent evaluation entry points, so two goroutines may write the same memory")
+	c.Floor("effects functions", nFns, 400, "functions reachable from evaluation entry points")
 	c.Floor("effects writes", nWrites, 300, "stores/map updates/appends classified")
 	c.Floor("effects root types", nTypes, 40, "implementers of Expression, Body, Node, Spec, Traverser")
-	_ = nShared
 }
 
 // Transient types: per-call working state that is never part of a parsed
@@ -630,4 +577,61 @@ func sameAddr(a, b ssa.Value) bool {
 		return ok && x.Index == y.Index && (sameAddr(x.X, y.X) || sameCell(x.X, y.X))
 	}
 	return false
+}
+
+// runEffects enumerates and classifies every write in the module functions reachable from roots.
+func runEffects(c *Ctx, rule string, roots map[*ssa.Function]bool, pkgs map[string]bool, cut map[*ssa.Function]bool, consequence string) (int, int) {
+	keep := func(f *ssa.Function) bool {
+		pk := fnPkg(f)
+		return pk != nil && strings.HasPrefix(pk.Path(), modPath) && pkgs[shortPkg(pk.Path())] && !cut[f]
+	}
+	var rootList []*ssa.Function
+	for f := range roots {
+		rootList = append(rootList, f)
+	}
+	scope := c.P.ReachableFrom(rootList, keep)
+	eng := newEffEngine(c.P, scope, roots)
+	var fns []*ssa.Function
+	for f := range scope {
+		fns = append(fns, f)
+	}
+	sort.Slice(fns, func(i, j int) bool {
+		if fns[i].Pos() != fns[j].Pos() {
+			return fns[i].Pos() < fns[j].Pos()
+		}
+		return FuncName(fns[i]) < FuncName(fns[j])
+	})
+	guardField := map[*types.Var]bool{}
+	for _, g := range discoverGuards(&Ctx{P: c.P, keys: map[string]int{}, Funcs: map[string]bool{}}) {
+		guardField[g.field] = true
+	}
+	nWrites := 0
+	for _, fn := range fns {
+		name := FuncName(fn)
+		c.Fn(name)
+		for _, w := range eng.Writes(fn) {
+			nWrites++
+			c.Sites++
+			key := fmt.Sprintf("%s:%s[%s]", name, w.kind, w.target)
+			if w.fresh {
+				c.OK(rule, key, w.pos, "")
+				continue
+			}
+			if why, transient := effTransient(w); transient {
+				c.OK(rule, key, w.pos, "not shared configuration state: "+why)
+				continue
+			}
+			if w.field != nil && guardField[w.field] {
+				c.OK(rule, key, w.pos, "lock-guarded field (decided by the guard rule)")
+				continue
+			}
+			if why, ok := effExceptions[key]; ok {
+				c.OK(rule, key, w.pos, "named exception: "+why)
+				c.Assumption("effects exception " + key + ": " + why)
+				continue
+			}
+			c.Fail(rule, key, w.pos, fmt.Sprintf("%s to %s which is not provably fresh (%s): %s", w.kind, w.target, w.why, consequence))
+		}
+	}
+	return len(fns), nWrites
 }
